@@ -21,6 +21,7 @@ func init() {
 			"PV-PAIR regexp stage: a named group is stored under its own submatch index; PV-ORDER comma lists: after a separating comma no successful return is reachable before another element was parsed",
 			"PV-ROLE the scanner reads Tokenize's own parameter; PV-FRESH parse methods write no parser field but the integer position",
 			"PV-FRESH BinOpExpr.Modifier comes from the modifier parse of the same operator",
+			"PV-API string literal values come from strutil.Unquote only; PV-ORDER stage lists are append-only in the parser",
 		},
 		NotDecided: []string{"acceptance of the whole grammar / independence from layout, comments and redundant parentheses beyond the look-ahead rule", "and/or precedence inside label predicates", "numeric literal values, string unquoting (strutil.Unquote), duration/bytes literal values"},
 		Rules: func(r *Run) {
@@ -48,6 +49,8 @@ func init() {
 			ruleLexerInputVerbatim(r)
 			ruleParserStateOnlyPosition(r)
 			ruleBinOpModifierFresh(r)
+			ruleUnquoteOnly(r)
+			ruleParserKeepsStageOrder(r)
 		},
 	})
 }
